@@ -715,8 +715,8 @@ func init() {
 			for _, n := range []string{"two-parses", "two-parses-of-sets", "a-rejected-and-a-valid-parse"} {
 				us = append(us, engine.Unit{Name: "schedules-" + n, Run: twoParses(n, twoParseDocs[n])})
 			}
-			us = append(us, engine.Unit{Name: "schedules-reuse-after-rejection", Run: reuseAfterRejection})
-			us = append(us, engine.Unit{Name: "results-belong-to-the-caller", Run: ownedResults})
+			us = append(us, engine.Unit{Name: "schedules-reuse-after-rejection", Early: true, Run: reuseAfterRejection})
+			us = append(us, engine.Unit{Name: "results-belong-to-the-caller", Early: true, Run: ownedResults})
 			us = append(us, engine.RacePassUnit("C11"))
 			for i, d := range scheduleDocs() {
 				us = append(us, engine.Unit{Name: fmt.Sprintf("schedules-%d", i), Run: scheduleUnit(d)})
